@@ -45,7 +45,7 @@ def envs(tier):
 
 
 PREFIXES = ['AT', 'GC', 'ATG', 'TA', 'CG', 'AC']
-FORMS = ['plain', 'gz', 'plain', 'gz', 'alias']   # alias: same content under another genome's file name, elsewhere
+FORMS = ['plain', 'gz', 'plain', 'gz', 'alias', 'link']   # alias: same content under another genome's file name, elsewhere
 
 
 def draw_kspec(ch, default_every=12):
@@ -151,7 +151,7 @@ def scenario(ctx):
 	npool = len(pool.genomes)
 	omp.set_threads(ch.int(1, 16, 'initial_threads'))
 	n_cmd = ch.int(8, 16, 'n_cmd')
-	all_paths = [g['plain'] for g in pool.genomes] + [g['gz'] for g in pool.genomes] + [g['alias'] for g in pool.genomes if g['alias']]
+	all_paths = [g['plain'] for g in pool.genomes] + [g['gz'] for g in pool.genomes] + [g['alias'] for g in pool.genomes if g['alias']] + [g['link'] for g in pool.genomes]
 	for c in range(n_cmd):
 		L = f'c{c}'
 		if ch.flip(0.12, L + '.failing_before'):
@@ -170,8 +170,9 @@ def scenario(ctx):
 		cores = ch.pick([None, 1, 2, 3, 4, 8, 16], L + '.cores')
 		progress = ch.flip(0.5, L + '.progress')
 		route = ch.pick(['cli', 'cli', 'api'], L + '.route')
-		knobs = Knobs(ch, L, n_tasks_hint=6, with_chunk=True, nrefs=n_ref)
+		knobs = Knobs(ch, L, n_tasks_hint=6, with_chunk=True, nrefs=n_ref, faults=True)
 		out = os.path.join(ctx.scratch, f'out-{c}.{fmt}')
+		no_ldir = False
 		if channel == 'sigfile':
 			batch = list(range(npool))      # the whole stored collection, in stored order
 			expected_labels = [str(x) for x in pool.sig_ids]
@@ -199,6 +200,10 @@ def scenario(ctx):
 							f.write('\n')
 				inputs = paths
 				args_in = ['-l', lf, '--ldir', base]
+				if ch.flip(0.3, L + '.no_ldir'):
+					# --ldir omitted: entries are relative to the directory the command is run in
+					args_in = ['-l', lf]
+					no_ldir = True
 				expected_labels = [label_model(r) for r in rels]
 		args = ['-d', world.dir, 'query', '-o', out, '-f', fmt] + (['--strict'] if strict else [])
 		args += ['--progress' if progress else '--no-progress']
@@ -206,12 +211,15 @@ def scenario(ctx):
 			args += ['-c', str(cores)]
 		args += args_in
 		cwd = pool.decoy_cwd if ch.flip(0.5, L + '.decoy_cwd') else None
+		if no_ldir:
+			cwd = base
+		fault_paths = inputs if channel != 'sigfile' else None
 		desc = dict(channel=channel, fmt=fmt, strict=strict, cores=cores, progress=progress, route=route, batch=batch, decoy_cwd=bool(cwd), **knobs.describe())
 		if route == 'cli':
-			res, h = run_cli(ctx, args, knobs, short_paths=all_paths, short_seed=ch.subseed(L + '.short'), chunk=True, cwd=cwd, ch=ch, label=L)
+			res, h = run_cli(ctx, args, knobs, short_paths=all_paths, short_seed=ch.subseed(L + '.short'), chunk=True, cwd=cwd, ch=ch, label=L, fault_paths=fault_paths)
 			status, exc, stderr = res.status, res.exc, res.stderr
 		else:
-			status, exc, stderr, h = _api_route(ctx, ch, L, world, pool, channel, args_in, fmt, strict, cores, progress, knobs, out, all_paths, cwd)
+			status, exc, stderr, h = _api_route(ctx, ch, L, world, pool, channel, args_in, fmt, strict, cores, progress, knobs, out, all_paths, cwd, fault_paths)
 		ctx.stats['executions'] += 1
 		order = list(h.sim.completion_order)
 		text = open(out).read() if os.path.exists(out) else ''
@@ -229,6 +237,12 @@ def scenario(ctx):
 		if len(batch) >= 2 or (cores or 1) >= 2:
 			ctx.key(tuple(batch), channel, fmt, strict, cores, 'small' if (knobs.chunksize or 10 ** 9) < n_ref else 'big', tuple(order), route)
 		key_desc = f'{channel}/{fmt}{"/strict" if strict else ""} -c {cores} chunk {knobs.chunksize} via {route}'
+		if h.fault_fired and status != 0:
+			# an injected fault (worker death, read error) may make the command fail; it may never make it print wrong rows
+			ctx.probe('command_failed_under_fault')
+			continue
+		if h.fault_fired:
+			ctx.probe('command_succeeded_under_fault')
 		if status != 0:
 			ctx.violation('C08.count', f'query {key_desc} exited with status {status} ({type(exc).__name__ if exc else "no exception"})',
 			              detail=f'{exc!r}; stderr: {stderr[-400:]}')
@@ -256,7 +270,7 @@ def scenario(ctx):
 	ctx.sample = dict(n_ref=n_ref, n_pool=npool, commands=n_cmd)
 
 
-def _api_route(ctx, ch, L, world, pool, channel, args_in, fmt, strict, cores, progress, knobs, out, all_paths, cwd=None):
+def _api_route(ctx, ch, L, world, pool, channel, args_in, fmt, strict, cores, progress, knobs, out, all_paths, cwd=None, fault_paths=None):
 	"""The public API the command is a wrapper of; chunksize is an ordinary argument here."""
 	from gambit.cli import common
 	from gambit.cli.query import get_exporter
@@ -269,7 +283,7 @@ def _api_route(ctx, ch, L, world, pool, channel, args_in, fmt, strict, cores, pr
 	h = None
 	try:
 		from ..harness import in_dir, knob_defaults
-		with simulated(ctx, knobs, all_paths, ch.subseed(L + '.short')) as h, in_dir(cwd), knob_defaults(ctx, ch, L):
+		with simulated(ctx, knobs, all_paths, ch.subseed(L + '.short'), fault_paths) as h, in_dir(cwd), knob_defaults(ctx, ch, L):
 			db = ReferenceDatabase.load_from_dir(world.dir)
 			params = QueryParams(classify_strict=strict, chunksize=knobs.chunksize)
 			pconf = progress_config(TestProgressMeter) if progress else None
@@ -284,7 +298,7 @@ def _api_route(ctx, ch, L, world, pool, channel, args_in, fmt, strict, cores, pr
 					ids, files = common.get_sequence_files(args_in, None, None)
 				else:
 					with open(args_in[1]) as lf:
-						ids, files = common.get_sequence_files(None, lf, args_in[3])
+						ids, files = common.get_sequence_files(None, lf, args_in[3] if len(args_in) > 3 else '.')
 				results = query_parse(db, files, params, file_labels=ids, progress=pconf, parse_kw=dict(max_workers=cores))
 			get_exporter(fmt).export(out, results)
 	except HarnessError:
